@@ -172,6 +172,8 @@ func (g *irGenCtx) genSecurity(schemes []irScheme, allowGhost bool) [][]irSecCom
 			name := rng.Pick(r, schemes).Name
 			if allowGhost && r.Chance(1, 40) {
 				name = "ghost"
+			} else if allowGhost && r.Chance(1, 40) {
+				name = strings.ToUpper(name[:1]) + name[1:] // differs from a declared scheme by letter case only
 			}
 			sc := []string{}
 			for k := r.Intn(3); k > 0; k-- {
@@ -373,6 +375,17 @@ func genIRDoc(r *rng.R, perturb bool, engines []string) irDoc {
 				usesPlainError = true
 			}
 			c.Routes = append(c.Routes, rt)
+			if r.Chance(1, 5) {
+				// a second verb on the SAME template (one path item, two operations)
+				tw := rt
+				tw.OpId = rt.OpId + "t"
+				for tw.Verb == rt.Verb {
+					tw.Verb = rng.Pick(r, irVerbs)
+				}
+				tw.Params = append([]irParam{}, rt.Params...)
+				tw.Hidden = false
+				c.Routes = append(c.Routes, tw)
+			}
 		}
 		d.Controllers = append(d.Controllers, c)
 	}
